@@ -267,7 +267,14 @@ func init() {
 		return m.normScalar(m.C.Join(parts, m.strTerm(a[1])))
 	})
 	reg("strings.Split", func(m *Machine, fn *ssa.Function, a []Value) Value {
-		return toSlice(strings.Split(m.mustStr(a[0], "strings.Split"), m.mustStr(a[1], "strings.Split sep")))
+		if s, ok := m.str(a[0]); ok {
+			return toSlice(strings.Split(s, m.mustStr(a[1], "strings.Split sep")))
+		}
+		sep := m.mustStr(a[1], "strings.Split sep")
+		if sep == "" {
+			m.unsupported("strings.Split of a symbolic string with an empty separator")
+		}
+		return m.symSplit(m.strTerm(a[0]), sep)
 	})
 	reg("strings.Fields", func(m *Machine, fn *ssa.Function, a []Value) Value {
 		return toSlice(strings.Fields(m.mustStr(a[0], "strings.Fields")))
@@ -760,6 +767,18 @@ func init() {
 		return int64(strings.IndexByte(m.mustStr(a[0], "IndexByteString"), byte(m.toInt(a[1]))))
 	})
 	reg("internal/bytealg.CountString", func(m *Machine, fn *ssa.Function, a []Value) Value {
+		if _, ok := m.str(a[0]); !ok {
+			if b, isC := a[1].(int64); isC {
+				st := m.strTerm(a[0])
+				c := m.C
+				acc := c.BV(64, 0)
+				for i, ch := range st.Ch {
+					hit := c.And(c.Ult(c.L(i), st.Len), c.Eq(ch, c.BV(8, uint64(byte(b)))))
+					acc = c.Add(acc, c.Ite(hit, c.BV(64, 1), c.BV(64, 0)))
+				}
+				return m.normScalar(acc)
+			}
+		}
 		return int64(strings.Count(m.mustStr(a[0], "CountString"), string([]byte{byte(m.toInt(a[1]))})))
 	})
 	reg("internal/bytealg.IndexString", func(m *Machine, fn *ssa.Function, a []Value) Value {
@@ -790,6 +809,73 @@ func init() {
 		}
 		return m.C.Sext(m.C.LastIndexOf(m.strTerm(a[0]), string([]byte{byte(b)})), 32)
 	})
+}
+
+func init() {
+	// strings.Builder: the accumulated text lives beside the struct (its own fields use
+	// unsafe pointers); all methods are modelled
+	get := func(m *Machine, a Value) (*Value, Value) {
+		p := a.(*Value)
+		if v, ok := m.builders[p]; ok {
+			return p, v
+		}
+		return p, ""
+	}
+	reg("(*strings.Builder).WriteString", func(m *Machine, fn *ssa.Function, a []Value) Value {
+		p, cur := get(m, a[0])
+		m.builders[p] = m.concatV(cur, a[1])
+		return Tuple{m.lenOfStr(a[1]), nilErr()}
+	})
+	reg("(*strings.Builder).WriteByte", func(m *Machine, fn *ssa.Function, a []Value) Value {
+		p, cur := get(m, a[0])
+		switch b := a[1].(type) {
+		case int64:
+			m.builders[p] = m.concatV(cur, string([]byte{byte(b)}))
+		case *sym.Term:
+			m.builders[p] = m.concatV(cur, &sym.Str{Len: m.C.L(1), Ch: []*sym.Term{m.C.Resize(b, 8, false)}})
+		}
+		return nilErr()
+	})
+	reg("(*strings.Builder).WriteRune", func(m *Machine, fn *ssa.Function, a []Value) Value {
+		p, cur := get(m, a[0])
+		r := m.toInt(a[1])
+		m.builders[p] = m.concatV(cur, string(rune(r)))
+		return Tuple{int64(len(string(rune(r)))), nilErr()}
+	})
+	reg("(*strings.Builder).Write", func(m *Machine, fn *ssa.Function, a []Value) Value {
+		p, cur := get(m, a[0])
+		d := m.bytesToData(a[1])
+		m.builders[p] = m.concatV(cur, d)
+		return Tuple{m.lenOfStr(d), nilErr()}
+	})
+	reg("(*strings.Builder).String", func(m *Machine, fn *ssa.Function, a []Value) Value {
+		_, cur := get(m, a[0])
+		return cur
+	})
+	reg("(*strings.Builder).Len", func(m *Machine, fn *ssa.Function, a []Value) Value {
+		_, cur := get(m, a[0])
+		return m.lenOfStr(cur)
+	})
+	reg("(*strings.Builder).Reset", func(m *Machine, fn *ssa.Function, a []Value) Value {
+		p, _ := get(m, a[0])
+		delete(m.builders, p)
+		return nil
+	})
+	reg("(*strings.Builder).Grow", func(m *Machine, fn *ssa.Function, a []Value) Value { return nil })
+	reg("(*strings.Builder).Cap", func(m *Machine, fn *ssa.Function, a []Value) Value { return int64(64) })
+}
+
+func (m *Machine) lenOfStr(v Value) Value {
+	switch x := m.normScalar(v).(type) {
+	case string:
+		return int64(len(x))
+	case *sym.Str:
+		if x.Len.IsConst() {
+			return int64(x.Len.Val)
+		}
+		return m.C.Zext(x.Len, 32)
+	}
+	return int64(0)
 }
 
 // sprintfLoose formats for messages only (never fails on symbolic arguments).
@@ -893,4 +979,36 @@ func (m *Machine) extMethod(e *Ext, name string, args []Value) Value {
 	}
 	m.unsupported("method %s on modelled object %s", name, e.Kind)
 	return nil
+}
+
+// symSplit: strings.Split of a symbolic string by a concrete non-empty separator. The
+// length and the separator positions are decided (forking where they are not already
+// fixed by the path, e.g. by a shape split); the parts keep their symbolic characters.
+func (m *Machine) symSplit(s *sym.Str, sep string) Value {
+	c := m.C
+	n := int(m.Concretize(s.Len, false))
+	sub := func(lo, hi int) Value {
+		r := &sym.Str{Len: c.L(hi - lo), Ch: append([]*sym.Term(nil), s.Ch[lo:hi]...)}
+		if cs, ok := r.Concrete(); ok {
+			return cs
+		}
+		return r
+	}
+	var parts Slice
+	start, i := 0, 0
+	for i+len(sep) <= n {
+		hit := c.T
+		for k := 0; k < len(sep); k++ {
+			hit = c.And(hit, c.Eq(s.Ch[i+k], c.BV(8, uint64(sep[k]))))
+		}
+		if m.Decide(hit) {
+			parts = append(parts, sub(start, i))
+			i += len(sep)
+			start = i
+		} else {
+			i++
+		}
+	}
+	parts = append(parts, sub(start, n))
+	return parts
 }
